@@ -125,6 +125,7 @@ def run(prog, rep, tier='quick', config='default'):
     if n_sites == 0:
         rep.violation('R20a', 'anchor-lost:no-iterator-user', detail='anchor lost: no product call site constructs the optimised page iterator')
     r20cd(prog, rep, adt['name'], it_name)
+    r20f(prog, rep)
     rep.extra['page_cache_mutation_sites'] = n_mut
     rep.extra['iterator_construction_sites'] = n_sites
 
@@ -181,6 +182,58 @@ def r20cd(prog, rep, cache_adt, iter_adt):
             else:
                 # the popped page's text is unwrapped (a missing page is a bug, not something to skip)
                 rep.ok('R20c', k, where=pops[0].where(), fn=f.name, detail='each call pops one page number and returns it (no loop back to another pop)')
+        # R20e: the queue of pages to yield is the whole requested group; the iterator ends only when the groups are exhausted
+        # or a load failed
+        qstores = []
+        for i, b in f.blocks.items():
+            for st in b['stmts']:
+                if any(re.search(r'VecDeque<u32', prog.field_type(of, fl) or '') for (of, fl) in mir.place_fields(st['dst'])[-1:]):
+                    qstores.append((i, st, [o for o in st['r'].get('ops', []) if is_place(o)], f.where(st)))
+            t = b['term']
+            if t and t['t'] == 'call' and any(re.search(r'VecDeque<u32', prog.field_type(of, fl) or '') for (of, fl) in mir.place_fields(t['dst'])[-1:]):
+                qstores.append((i, t, [a for a in t['args'] if is_place(a)], f.where(t)))
+        if not qstores:
+            rep.violation('R20e', 'anchor-lost:queue-store', fn=f.name, detail='anchor lost: the iterator no longer refills its queue of page numbers')
+        for n, (bb, node, ops, where) in enumerate(qstores, 1):
+            ch = []
+            from_groups = False
+            for o in ops:
+                org = mir.provenance(f, o, follow_all_call_args=True)
+                ch += [x for x in org.calls if x.short in LENCHG and x.decl.startswith('std::')]
+                from_groups = from_groups or any(re.search(r'Vec<std::vec::Vec<u32', prog.field_type(of, fl) or '') for (of, fl) in org.fields)
+            k2 = '%s|queue-is-the-whole-group#%d' % (f.name, n)
+            if ch:
+                rep.violation('R20e', k2, where=where, fn=f.name,
+                              detail='the page numbers queued for yielding pass through %s(): pages of a requested group can be left out (and a group '
+                                     'that filters down to nothing ends the iteration before the remaining groups)' % ch[0].short)
+            elif from_groups:
+                rep.ok('R20e', k2, where=where, fn=f.name, detail='the queue is refilled with the complete next group')
+            else:
+                rep.violation('R20e', k2, where=where, fn=f.name, detail='the queue is not refilled from the page groups')
+        nones = [(i, st) for i, b in f.blocks.items() for st in b['stmts']
+                 if st['dst']['l'] == 0 and not st['dst']['p'] and st['r']['rv'] == 'agg' and st['r']['kind'].endswith('Option::None')]
+        residual = [c for c in f.calls if c.short == 'from_residual']
+        k3 = '%s|ends-only-when-groups-exhausted-or-load-failed' % f.name
+        bad_end = None
+        for c in residual:
+            bad_end = bad_end or (c.where(), 'a `?` on an Option turns an empty queue into the end of the iteration')
+        for (i, st) in nones:
+            ok_edge = False
+            for (sbb, discr, vals, neg) in f.conditions_at(i):
+                d = mir.provenance(f, discr, follow_all_call_args=True)
+                cmp_len = any(op in ('Ge', 'Gt', 'Le', 'Lt', 'Eq') for op, _ in d.binops) and any(x.short == 'len' for x in d.calls)
+                load_err = any(x.short in ('is_err', 'is_ok') or (x.callee.startswith(cache_adt + '::')) for x in d.calls)
+                if cmp_len or load_err:
+                    ok_edge = True
+            if not ok_edge:
+                bad_end = bad_end or (f.where(st), 'None is returned on a path that tests neither "no group left" nor "loading failed"')
+        if bad_end:
+            rep.violation('R20e', k3, where=bad_end[0], fn=f.name,
+                          detail='%s: later groups (including the remainder group holding every page not named by a hint) are never visited' % bad_end[1])
+        elif nones:
+            rep.ok('R20e', k3, where=f.where(nones[0][1]), fn=f.name, detail='%d `return None` site(s), each behind the group-count test or the load-failure test' % len(nones))
+        else:
+            rep.violation('R20e', 'anchor-lost:none-returns', fn=f.name, detail='anchor lost: the iterator never returns None')
     loaders = [f for f in prog.product_fns() if f.name.startswith(cache_adt + '::') and
                any(c.callee.startswith('peripheral::pdf::get_pages_text') for c in f.calls)]
     if rep.anchor('page loader of the page cache', loaders):
@@ -203,3 +256,42 @@ def r20cd(prog, rep, cache_adt, iter_adt):
             ch = [x for x in org.calls if x.short in LENCHG]
             if ch:
                 rep.violation('R20d', '%s|zip-over-requested-pages' % f.name, where=c.where(), fn=f.name, detail='loaded texts are paired with a filtered page list')
+
+
+def r20f(prog, rep):
+    """every page handed to the statement parser is tested for the table marker: inside the page loop no path returns to the
+    loop head without having run the regex test that guards the table parser (no `continue` ahead of it)"""
+    cands = []
+    for f in prog.product_fns():
+        if not f.name.startswith('peripheral::questrade_statement_fmv_impl::') or f.kind not in ('Fn', 'AssocFn'):
+            continue
+        for (nc, header, body) in f.iterator_loops():
+            tests = [c for c in f.calls if c.bb in body and c.short in ('is_match', 'find', 'captures', 'contains') and re.search(r'regex::|str', c.callee)]
+            parsers = [c for c in f.calls if f.dominates(header, c.bb) and prog.resolve(c.callee, f.crate) is not None and
+                       prog.resolve(c.callee, f.crate).name.startswith('peripheral::questrade_statement_fmv_impl::') and
+                       prog.resolve(c.callee, f.crate).kind in ('Fn', 'AssocFn')]
+            rets = [i for i in body if any(st['dst']['l'] == 0 and st['r']['rv'] == 'agg' and st['r']['kind'].endswith('Result::Ok') for st in f.blocks[i]['stmts'])]
+            if tests and parsers and re.search(r'StatementFmvs', f.ty.get(0, '')):
+                cands.append((f, nc, header, body, tests, parsers))
+    if not rep.anchor('page loop of the statement parser (regex test guarding the table parser)', [c[0].name for c in cands]):
+        return
+    for (f, nc, header, body, tests, parsers) in cands:
+        pc = parsers[0]
+        markers = [t for t in tests if f.dominates(t.bb, pc.bb) and t.bb != pc.bb]
+        k = '%s|every-page-is-tested-for-the-table' % f.name
+        if not markers:
+            rep.violation('R20f', k, where=pc.where(), fn=f.name, detail='anchor lost: the table parser is not guarded by a test of the page text')
+            continue
+        sw = f.blocks[nc.target]['term'] if nc.target in f.blocks else None
+        entry = ([tg for v, tg in sw['targets'] if v == 1] or [sw['otherwise']])[0] if sw and sw['t'] == 'switch' else None
+        errs = {c.bb for c in f.calls if c.short == 'from_residual'}
+        avoid = {m.bb for m in markers} | errs
+        if entry is None:
+            rep.violation('R20f', k, where=nc.where(), fn=f.name, detail='anchor lost: body entry of the page loop')
+        elif entry in avoid or not f.reaches(entry, header, avoid=avoid):
+            rep.ok('R20f', k, where=markers[-1].where(), fn=f.name,
+                   detail='no path through the loop body reaches the next page without the marker test (%s)' % short(markers[-1].callee))
+        else:
+            rep.violation('R20f', k, where=markers[-1].where(), fn=f.name,
+                          detail='a page can be passed over (the loop continues with the next page) before it is tested for the table marker: a table on '
+                                 'that page is never found')
